@@ -22,7 +22,7 @@ RULE = (
     "GeometricImage.convolve_with incl. declared parity. Non-trivial: g != e and base output not identically zero; "
     "distinct by option set."
 )
-RULE += " Also: realistic image sizes, filter reach beyond the extent on toroidal axes, per-axis dilation tuples, TORUS with image dilation."
+RULE += " Near-domain stratum (every 9th case): filters with even and odd sides + string padding, which the library refuses - a tree that accepts them must still be covariant (reject-or-commute). Also: realistic image sizes, filter reach beyond the extent on toroidal axes, per-axis dilation tuples, TORUS with image dilation."
 ASSUMPTIONS = [
     "reference action and reference convolution (self-tested)",
     "explicit padding pairs travel with their axis (lo/hi swap under an axis flip); only symmetric pairs are generated",
@@ -106,10 +106,24 @@ def run(case, ctx):
     if not basis and case["i"] % 20 == 19:
         cfg["sp"] = [int(v) for v in (rng.integers(24, 41, size=2) if D == 2 else rng.integers(8, 12, size=3))]  # realistic sizes
         cfg["Cin"], cfg["Cout"], cfg["k"], cfg["k2"] = int(rng.integers(4, 17)), int(rng.integers(4, 9)), int(rng.integers(0, 2)), int(rng.integers(0, 2))
+    # near-domain stratum (reject-or-commute): a filter with even AND odd sides together with a string/default padding is
+    # refused by the library (even sides need literal padding). If a tree accepts such a call it claims a result, and the result
+    # must then be covariant like any other; a refusal is counted and is fine. The value is not compared with the definition
+    # here (the statement does not say where the extra pixel of an even side goes), only the relation between the executions.
+    near = (not basis) and case["i"] % 9 == 4
+    if near:
+        fs = [int(rng.choice([1, 3])) for _ in range(D)]
+        fs[int(rng.integers(D))] = int(rng.choice([2, 2, 4]))
+        cfg["fsp"], cfg["filter_kind"] = fs, "even+odd (near-domain)"
+        cfg["padding"] = [None, "SAME", "TORUS"][int(rng.integers(3))]
+        cfg["pad_kind"] = "None" if cfg["padding"] is None else cfg["padding"]
+        cfg["lhs"] = None
     is_torus, stride, padding, lhs, rhs = gen.conv_args(cfg)
     sp, fsp, k, k2 = tuple(cfg["sp"]), tuple(cfg["fsp"]), cfg["k"], cfg["k2"]
     try:
-        if min(rconv.out_extents(sp, fsp, is_torus, 1, padding, lhs, rhs)) < 1:
+        if near:
+            pass
+        elif min(rconv.out_extents(sp, fsp, is_torus, 1, padding, lhs, rhs)) < 1:
             return {"status": "skipped", "key": "empty-output", "nontrivial": False}
     except ValueError:
         return {"status": "skipped", "key": "empty-output", "nontrivial": False}
@@ -137,7 +151,12 @@ def run(case, ctx):
             base = np.asarray(geom.convolve(D, jnp.asarray(A), jnp.asarray(F), is_torus, 1, padding, lhs, rhs))
         evals += 1
     except Exception as e:
+        if near:
+            _mon.take()
+            return result(key, [], False, evals=0, obs={"near_domain_refused": 1}, hist=hist_of(cfg, case))
         return result(key, [viol(f"convolve-exception-{type(e).__name__}", f"convolve raised {e} on {key}", cfg=cfg)], True, hist=hist_of(cfg, case))
+    if near:
+        _mon.take()  # value against the definition is not judged in the near-domain stratum
     G = group_sample(ctx["tier"], D, rng)
     n_g = 0
     for g in G:
@@ -170,7 +189,9 @@ def run(case, ctx):
             if err_exact(got, want) > 1e-4:
                 viols.append(viol("conv-not-translation-equivariant", f"conv(shift.A,C) != shift.conv(A,C): {key} shift={shift}", cfg=cfg, shift=list(shift)))
                 break
-    viols += _mon.take()
+    viols += [] if near else _mon.take()
+    if near:
+        _mon.take()
     # object-level covariance (lattice mode): flags travel with the image, declared parity p+p'
     if not basis and not viols:
         try:
@@ -197,7 +218,7 @@ def run(case, ctx):
         except Exception as e:
             viols.append(viol(f"convolve_with-exception-{type(e).__name__}", f"{type(e).__name__}: {str(e)[:300]} on {key}", cfg=cfg))
     nontrivial = bool(np.any(base != 0)) and n_g > 1
-    return result(key, viols, nontrivial, evals=evals, obs={"paired_executions": n_g, "basis_complete_configs": int(basis)}, hist=hist_of(cfg, case, k, k2), sample={"cfg": cfg, "k": k, "k2": k2, "p": p, "p2": p2, "n_g": n_g})
+    return result(key, viols, nontrivial, evals=evals, obs={"paired_executions": n_g, "basis_complete_configs": int(basis), "near_domain_accepted": int(near)}, hist=hist_of(cfg, case, k, k2), sample={"cfg": cfg, "k": k, "k2": k2, "p": p, "p2": p2, "n_g": n_g})
 
 
 def hist_of(cfg, case, k=None, k2=None):
